@@ -1345,20 +1345,20 @@ func checkIndex(c indexCase) ev.Outcome {
 func init() {
 	ev.Define("normalize", ev.Options{
 		Rule:  "multisets of 0..300 valid cell ids built from operations on fresh/earlier cells (duplicate, ancestor, descendant, 4 children, 3 children, complete/incomplete sibling staircases 2..6 levels deep, runs of adjacent cells across faces, whole faces/all six, other three siblings, boundary leaves, 16 grandchildren, cell+parent), rotated/reversed. Oracle: leaf-interval model, canonical form by greedy maximal aligned blocks; Normalize == canonical, idempotent, order independent, CellUnionFromUnion of a split; IsValid/IsNormalized == model on raw input, sorted maximal cells, a normal form with one cell split, lists with an invalid id. Non-trivial = a cascaded sibling collapse of depth >= 2 occurred.",
-		Quick: 400000, Thorough: 10000000}, genNorm, checkNorm)
+		Quick: 400000, Thorough: 3000000}, genNorm, checkNorm)
 	ev.Define("set_operations", ev.Options{
 		Rule:  "pairs (A,B) (+ optional third) where B's cells are drawn relative to A's (nested, straddling, siblings completing A's groups, adjacent, boundary leaves). Union on the raw multisets; Intersection, Difference (both orders), Contains, Intersects (both orders), IntersectionWithCellID on the normal forms; all == leaf-interval model (exact normalized lists); laws via the library's own operations. Non-trivial = some cell of one normal form strictly inside a cell of the other, the sets intersect, and A∪B collapses siblings over >= 2 levels.",
-		Quick: 250000, Thorough: 7000000}, genOps, checkOps)
+		Quick: 250000, Thorough: 1500000}, genOps, checkOps)
 	ev.Define("membership", ev.Options{
 		Rule:  "a union and 1..12 probe cells related to it (members, ancestors, children, inner/boundary/adjacent leaves, curve neighbours, siblings): ContainsCellID/IntersectsCellID (normalized union: leaf model; valid un-normalized variant: single-cell containment as documented), ContainsCell/IntersectsCell, ContainsPoint at leaf centres, LeafCellsCovered, Denormalize(minLevel, levelMod 1..3) == exact expected list and round trip. Non-trivial = probes both inside the union and straddling its boundary.",
-		Quick: 200000, Thorough: 6000000}, genMember, checkMember)
+		Quick: 200000, Thorough: 1500000}, genMember, checkMember)
 	ev.Define("range_tiling", ev.Options{
 		Rule:  "leaf ranges [begin,end) with ends at cell boundaries of any level ± small/aligned offsets, empty, single leaf, whole sphere, across faces, end = end-of-space sentinel: CellUnionFromRange == canonical minimal block decomposition, every step of the documented MaxTile loop; MaxTile on arbitrary (cell, limit) pairs == documented definition. Non-trivial = the tiling uses >= 3 different levels.",
-		Quick: 400000, Thorough: 12000000}, genRange, checkRange)
+		Quick: 400000, Thorough: 3000000}, genRange, checkRange)
 	ev.Define("intersect_find", ev.Options{
 		Rule:  "2..12 arbitrary (un-normalized) unions, later ones related to / copies of earlier ones; model: elementary segments between all interval end points grouped by the exact set of covering unions (>= 2); Find must return exactly one normalized Intersection per non-empty group with exactly its leaves. Non-trivial = >= 2 regions and a region covered by >= 3 unions.",
-		Quick: 150000, Thorough: 5000000}, genFind, checkFind)
+		Quick: 150000, Thorough: 1500000}, genFind, checkFind)
 	ev.Define("cell_index", ev.Options{
 		Rule:  "0..200 (cell,label) pairs with nesting, duplicates and duplicate pairs, built once: ranges partition the leaf space in order; contents of each range == pairs containing it == pairs intersecting it (multiset); IsEmpty; Prev; non-empty iterator forwards/backwards; one ContentsIterator over an increasing (sub)sequence of ranges reports each pair exactly once, again after Clear; arbitrary order reports each at least once and nothing foreign; Seek (plain: range contains target; non-empty: first non-empty range ending after it); Advance. Non-trivial = some range is contained in >= 3 indexed cells and >= 3 non-empty ranges.",
-		Quick: 120000, Thorough: 4000000}, genIndex, checkIndex)
+		Quick: 120000, Thorough: 1000000}, genIndex, checkIndex)
 }
